@@ -77,6 +77,9 @@ type queueDrv struct {
 	q       queue.Store
 	n       *recNotifier
 	version packets.Version
+	// elements added with expiry `soon` and the deadline they were given: an `age` op back-dates the deadline of those
+	// that still carry it (the mem queue keeps the *queue.Elem it was handed) — simulated passage of time, no sleeping
+	soon map[*queue.Elem]time.Time
 }
 
 // tick makes sure the wall clock has advanced past any `now+1ns` expiry set by the previous op.
@@ -145,6 +148,7 @@ func (d *queueDrv) Step(line string) string {
 			ie = time.Hour
 		}
 		d.n = &recNotifier{}
+		d.soon = map[*queue.Elem]time.Time{}
 		q, err := qmem.New(qmem.Options{MaxQueuedMsg: atoi(f[1]), InflightExpiry: ie, ClientID: "c", DefaultNotifier: d.n})
 		if err != nil {
 			return "err"
@@ -169,6 +173,9 @@ func (d *queueDrv) Step(line string) string {
 			e.Expiry = time.Now().Add(-2 * time.Hour)
 		case "future":
 			e.Expiry = time.Now().Add(2 * time.Hour)
+		case "soon":
+			e.Expiry = time.Now().Add(time.Hour)
+			d.soon[e] = e.Expiry
 		}
 		if err := d.q.Add(e); err != nil {
 			return "err"
@@ -241,6 +248,16 @@ func (d *queueDrv) Step(line string) string {
 		return "notfound"
 	case "close":
 		d.q.Close()
+		return "ok"
+	case "age":
+		// time passes: every deadline that was "soon" is now in the past. Only the element's own message expiry is
+		// moved; a deadline that Read/ReadInflight has since replaced (in-flight expiry) is left alone.
+		for e, t := range d.soon {
+			if e.Expiry.Equal(t) {
+				e.Expiry = time.Now().Add(-2 * time.Hour)
+			}
+			delete(d.soon, e)
+		}
 		return "ok"
 	}
 	return "bad-op"
